@@ -34,9 +34,13 @@ def _limits():
     os.setsid()
 
 
-def kani_cmd(target_dir, harnesses, only_codegen=False):
-    cmd = ["cargo", "kani", "-Z", "stubbing", "-Z", "concrete-playback", "--concrete-playback=print",
-           "--target-dir", target_dir]
+def kani_cmd(target_dir, harnesses, only_codegen=False, playback=True):
+    cmd = ["cargo", "kani", "-Z", "stubbing", "--target-dir", target_dir]
+    if playback:
+        # concrete playback makes CBMC produce a trace per cover/failure (measured 2.6x slower),
+        # so it is on for cheap harnesses (their cover witnesses become evidence samples) and
+        # for the second run of a harness that failed
+        cmd += ["-Z", "concrete-playback", "--concrete-playback=print"]
     if only_codegen:
         cmd.append("--only-codegen")
     for h in harnesses:
@@ -147,13 +151,15 @@ class Job:
         self.playback = []
 
 
-def run_job(job, target_dir, logdir):
+def run_job(job, target_dir, logdir, playback=None):
     name = job.spec["name"]
-    log = os.path.join(logdir, name + ".log")
+    if playback is None:
+        playback = job.spec.get("cost", 10) <= 15
+    log = os.path.join(logdir, name + (".playback" if playback and job.result is not None else "") + ".log")
     job.log = log
     t0 = time.time()
     with open(log, "w") as f:
-        p = subprocess.Popen(kani_cmd(target_dir, [name]), cwd=KANI_CRATE, env=_env(), stdout=f,
+        p = subprocess.Popen(kani_cmd(target_dir, [name], playback=playback), cwd=KANI_CRATE, env=_env(), stdout=f,
                              stderr=subprocess.STDOUT, preexec_fn=_limits)
         try:
             p.wait(timeout=job.timeout_s)
@@ -171,7 +177,13 @@ def run_job(job, target_dir, logdir):
     if timed_out:
         res["status"] = "timeout"
     job.playback = parse_playback(text)
+    first = job.result is None
     job.result = res
+    if first and res["status"] == "failed" and not playback:
+        # second run, with concrete playback, to obtain the counterexample values
+        first_wall = job.wall_s
+        run_job(job, target_dir, logdir, playback=True)
+        job.wall_s += first_wall
     return job
 
 
